@@ -92,10 +92,39 @@ def check(ctx):
     ctx.floor("C02-R1", "shortcut entries examined", n, 11)
 
     # ---- R2
+    def table_symbols(f):
+        """the symbols a function knows: string constants it compares with / tests membership in, whether they are written in the
+        function or in a module-level table (set, tuple of entries, dictionary) the function reads"""
+        out = set()
+
+        def keys_of(v):
+            ks = set()
+            if isinstance(v, (ast.Set, ast.List, ast.Tuple)):
+                for e in v.elts:
+                    if isinstance(e, ast.Constant) and isinstance(e.value, str):
+                        ks.add(e.value)
+                    elif isinstance(e, (ast.Tuple, ast.List)) and e.elts and isinstance(e.elts[0], ast.Constant) and isinstance(e.elts[0].value, str):
+                        ks.add(e.elts[0].value)      # table of (symbol, ...) entries
+            elif isinstance(v, ast.Dict):
+                ks |= {k.value for k in v.keys if isinstance(k, ast.Constant) and isinstance(k.value, str)}
+            elif isinstance(v, ast.Call) and callee_name(v) in ("frozenset", "set", "dict", "tuple") and v.args:
+                ks |= keys_of(v.args[0])
+            return ks
+        for n in ast.walk(f.node):
+            if isinstance(n, ast.Compare):
+                for c in [n.left] + n.comparators:
+                    if isinstance(c, ast.Constant) and isinstance(c.value, str):
+                        out.add(c.value)
+                    out |= keys_of(c)
+            if isinstance(n, ast.Name) and isinstance(n.ctx, ast.Load):
+                for st in f.module.tree.body:
+                    if isinstance(st, ast.Assign) and any(isinstance(t, ast.Name) and t.id == n.id for t in st.targets):
+                        out |= keys_of(st.value)
+        return out
     ia = repo.fn("types:is_adverb")
-    syms_a = {e.value for s in ast.walk(ia.node) if isinstance(s, ast.Set) for e in s.elts if isinstance(e, ast.Constant)}
+    syms_a = table_symbols(ia)
     ga = repo.fn("types:get_adverb_arity")
-    syms_b = {c.comparators[0].value for c in ast.walk(ga.node) if isinstance(c, ast.Compare) and isinstance(c.comparators[0], ast.Constant) and isinstance(c.comparators[0].value, str)}
+    syms_b = table_symbols(ga)
     gf = repo.fn("adverbs:get_adverb_fn")
     branches = {}
     for nd in walk_local(gf.node):
